@@ -56,8 +56,22 @@ func writeLocsGets(t *Toks, h *rtp.Header, wire []byte) {
 
 // observeRecv decodes buf with Header.Unmarshal into h and with Packet.Unmarshal into p (each
 // from its own private copy of buf, so offsets are relative to the slice that was passed).
-func observeRecv(t *Toks, h *rtp.Header, p *rtp.Packet, buf []byte) {
-	wire := cloneBytes(buf)
+func observeRecv(t *Toks, h *rtp.Header, p *rtp.Packet, buf []byte, spare bool) {
+	// the slice handed to the parser either fills its backing array exactly (reading past the end
+	// panics) or is followed by 64 bytes of 0xEE inside the same array (slicing past the end does
+	// not panic in Go then; the offsets and values observed below show it)
+	clone := func() []byte {
+		if !spare {
+			return cloneBytes(buf)
+		}
+		big := make([]byte, len(buf)+64)
+		copy(big, buf)
+		for i := len(buf); i < len(big); i++ {
+			big[i] = 0xEE
+		}
+		return big[:len(buf)]
+	}
+	wire := clone()
 	var n int
 	var err error
 	if try(func() { n, err = h.Unmarshal(wire) }) {
@@ -73,7 +87,7 @@ func observeRecv(t *Toks, h *rtp.Header, p *rtp.Packet, buf []byte) {
 	}) {
 		t.Tok("panic-in-accessor")
 	}
-	wire = cloneBytes(buf)
+	wire = clone()
 	if try(func() { err = p.Unmarshal(wire) }) {
 		t.Panic()
 	} else if err != nil {
@@ -98,14 +112,15 @@ func observeC02(c *Case, buf []byte, prev []byte, hasPrev bool, more ...[]byte) 
 	}
 	prevs = append(prevs, more...)
 	c.I.Bytes(buf).BytesList(prevs)
-	observeRecv(&c.O, &rtp.Header{}, &rtp.Packet{}, buf)
+	spare := c.R.Bool()
+	observeRecv(&c.O, &rtp.Header{}, &rtp.Packet{}, buf, spare)
 	h, p := &rtp.Header{}, &rtp.Packet{}
 	for _, pv := range prevs {
 		pv := pv
 		try(func() { _, _ = h.Unmarshal(cloneBytes(pv)) })
 		try(func() { _ = p.Unmarshal(cloneBytes(pv)) })
 	}
-	observeRecv(&c.O, h, p, buf)
+	observeRecv(&c.O, h, p, buf, spare)
 	if len(buf) < 12 {
 		c.Trivial()
 	}
